@@ -63,6 +63,9 @@ pub struct Scenario {
     /// script argument before the flags
     #[serde(default)]
     pub script_first: bool,
+    /// 0 = prog.blots / out.json; 1 = names with a space; 2 = in a sub-directory; 3 = non-ASCII names
+    #[serde(default)]
+    pub path_style: u8,
 }
 
 #[derive(Clone, Debug)]
@@ -376,6 +379,7 @@ pub fn gen_scenario(rng: &mut Rng) -> Scenario {
         script_style: if rng.chance(1, 2) { 0 } else { rng.below(4) as u8 },
         flag_eq: rng.chance(1, 4),
         script_first: rng.chance(1, 4),
+        path_style: if rng.chance(2, 3) { 0 } else { rng.below(4) as u8 },
     }
 }
 
@@ -408,18 +412,28 @@ pub fn invocation(sc: &Scenario) -> Invocation {
         }
     }
     let mut out_path = None;
+    // path variants keep the suffixes the shim classifies by (prog.blots / out.json)
+    let (prog_name, out_name) = match sc.path_style {
+        1 => ("my prog.blots".to_string(), "the out.json".to_string()),
+        2 => {
+            dirs.push("sub dir".to_string());
+            ("sub dir/prog.blots".to_string(), "./sub dir/out.json".to_string())
+        }
+        3 => ("скрипт-prog.blots".to_string(), "вывод-out.json".to_string()),
+        _ => ("prog.blots".to_string(), "out.json".to_string()),
+    };
     match &sc.out {
         OutDest::Stdout => {}
         OutDest::File => {
             argv.push(if sc.long_flags { "--output".into() } else { "-o".into() });
-            argv.push("out.json".into());
-            out_path = Some("out.json".to_string());
+            argv.push(out_name.clone());
+            out_path = Some(out_name.clone());
         }
         OutDest::FileStale(content) => {
             argv.push("-o".into());
-            argv.push("out.json".into());
-            files.push(("out.json".to_string(), content.clone().into_bytes()));
-            out_path = Some("out.json".to_string());
+            argv.push(out_name.clone());
+            files.push((out_name.clone(), content.clone().into_bytes()));
+            out_path = Some(out_name.clone());
         }
         OutDest::FileMissingDir => {
             argv.push("-o".into());
@@ -440,8 +454,8 @@ pub fn invocation(sc: &Scenario) -> Invocation {
     let pos = if sc.script_first { 0 } else { argv.len() };
     match sc.mode {
         Mode::File => {
-            files.push(("prog.blots".to_string(), src.into_bytes()));
-            argv.insert(pos, "prog.blots".into());
+            files.push((prog_name.clone(), src.into_bytes()));
+            argv.insert(pos, prog_name.clone());
         }
         Mode::Inline => argv.insert(pos, src),
         Mode::EvalStdin => {
@@ -871,6 +885,7 @@ pub fn pipeline_b(rng: &mut Rng, a_stdout: &[u8]) -> Scenario {
         script_style: 0,
         flag_eq: false,
         script_first: false,
+        path_style: 0,
     }
 }
 
@@ -1206,6 +1221,7 @@ pub fn fixed_corpus() -> Vec<(String, Scenario)> {
         script_style: 0,
         flag_eq: false,
         script_first: false,
+        path_style: 0,
     };
     let mut v = vec![
         ("F3-output-builtin".to_string(), base(vec![CStmt::OutVisible("sum".into())])),
